@@ -131,6 +131,16 @@ impl CounterMessageFlyweight {
         self.label_length_offset() + I32_SIZE + self.label_length() as Index
     }
 
+    /// Number of bytes the message takes for a key and a label of the given lengths
+    /// (the key is padded so that the label length is 4 byte aligned).
+    #[inline]
+    pub fn encoded_length(key_length: usize, label_length: usize) -> usize {
+        let alignment = I32_SIZE as usize;
+        let aligned_key_length = (key_length + (alignment - 1)) & !(alignment - 1);
+
+        COUNTER_MESSAGE_LENGTH as usize + alignment + aligned_key_length + alignment + label_length
+    }
+
     // Parent Getters
 
     #[cfg(test)]
